@@ -38,71 +38,131 @@ Proof.
     destruct (Ascii.eqb_spec "."%char c) as [E|_]; [congruence|]. reflexivity.
 Qed.
 
-Lemma data_line_stuff max buf size l :
-  size + len l <= max ->
-  data_line max buf size (stuff_line l) = DMore (buf ++ l) (size + len l).
+Lemma data_line_stuff max d l :
+  d_big d = false -> d_size d + len l <= max ->
+  data_line max d (stuff_line l) =
+  DMore {| d_buf := d_buf d ++ l; d_size := d_size d + len l; d_big := false |}.
 Proof.
-  intros H. unfold data_line.
-  pose proof (stuff_line_not_term l) as T. unfold is_term in T. rewrite T.
+  intros B H. unfold data_line.
+  pose proof (stuff_line_not_term l) as T. unfold is_term in T. rewrite T, B.
   rewrite unstuff_stuff_line.
-  destruct (Z.gtb_spec (size + len l) max); [lia|reflexivity].
+  destruct (Z.gtb_spec (d_size d + len l) max); [lia|reflexivity].
 Qed.
 
-Lemma data_line_stuff_big max buf size l :
-  size + len l > max ->
-  data_line max buf size (stuff_line l) = DTooBig.
+Lemma data_line_stuff_big max d l :
+  d_big d = false -> d_size d + len l > max ->
+  data_line max d (stuff_line l) =
+  DMore {| d_buf := []; d_size := d_size d + len l; d_big := true |}.
 Proof.
-  intros H. unfold data_line.
-  pose proof (stuff_line_not_term l) as T. unfold is_term in T. rewrite T.
+  intros B H. unfold data_line.
+  pose proof (stuff_line_not_term l) as T. unfold is_term in T. rewrite T, B.
   rewrite unstuff_stuff_line.
-  destruct (Z.gtb_spec (size + len l) max); [reflexivity|lia].
+  destruct (Z.gtb_spec (d_size d + len l) max); [reflexivity|lia].
 Qed.
 
-Lemma data_line_term max buf size t : is_term t = true -> data_line max buf size t = DEnd.
+(** once over the limit, body lines are read and dropped *)
+Lemma data_line_stuff_skip max d l :
+  d_big d = true -> data_line max d (stuff_line l) = DMore d.
+Proof.
+  intros B. unfold data_line.
+  pose proof (stuff_line_not_term l) as T. unfold is_term in T. now rewrite T, B.
+Qed.
+
+Lemma data_line_term max d t : is_term t = true -> data_line max d t = DEnd.
 Proof. intros H. unfold data_line. unfold is_term in H. now rewrite H. Qed.
+
+(** the loop state after the stuffed lines of a body *)
+Fixpoint absorb (max : Z) (d : dstate) (b : list str) : dstate :=
+  match b with
+  | [] => d
+  | l :: b' => match data_line max d (stuff_line l) with
+               | DMore d' => absorb max d' b'
+               | DEnd => d
+               end
+  end.
+
+Lemma absorb_small max b : forall d,
+  d_big d = false -> d_size d + len (concat b) <= max ->
+  absorb max d b = {| d_buf := d_buf d ++ concat b; d_size := d_size d + len (concat b); d_big := false |}.
+Proof.
+  induction b as [|l b IH]; intros d B H.
+  - cbn [absorb concat]. rewrite app_nil_r, len_nil, Z.add_0_r. destruct d; cbn in *; now subst.
+  - cbn [absorb concat] in *. rewrite len_app in H. pose proof (len_nonneg (concat b)).
+    rewrite data_line_stuff by (auto; lia). rewrite IH by (cbn; auto; lia). cbn.
+    now rewrite len_app, <- app_assoc, Z.add_assoc.
+Qed.
+
+Lemma absorb_big max b : forall d, d_big d = true -> absorb max d b = d.
+Proof.
+  induction b as [|l b IH]; intros d B; [reflexivity|].
+  cbn [absorb]. rewrite data_line_stuff_skip by exact B. now apply IH.
+Qed.
+
+Lemma absorb_large max b : forall d,
+  d_big d = false -> d_size d <= max -> d_size d + len (concat b) > max ->
+  d_big (absorb max d b) = true.
+Proof.
+  induction b as [|l b IH]; intros d B Hs H.
+  - cbn [concat] in H. rewrite len_nil in H. lia.
+  - cbn [absorb concat] in *. rewrite len_app in H.
+    destruct (Z_le_gt_dec (d_size d + len l) max) as [Hle|Hgt].
+    + rewrite data_line_stuff by auto. apply IH; cbn; auto; lia.
+    + rewrite data_line_stuff_big by auto. now rewrite absorb_big.
+Qed.
+
+Lemma read_data_body max b : forall d tail,
+  read_data_lines max d (stuff b ++ tail) = read_data_lines max (absorb max d b) tail.
+Proof.
+  induction b as [|l b IH]; intros d tail; [reflexivity|].
+  cbn [stuff map app read_data_lines absorb].
+  destruct (data_line max d (stuff_line l)) eqn:E.
+  - pose proof (stuff_line_not_term l) as T. unfold data_line in E. unfold is_term in T.
+    rewrite T in E. destruct (d_big d); [discriminate|].
+    destruct (_ >? _); discriminate.
+  - apply IH.
+Qed.
 
 (** transparency, line level: whatever the body (any octets, lines of dots,
     lines that look like commands), reading the stuffed body followed by a
     terminator yields the body and leaves exactly what follows the terminator *)
-Lemma read_data_stuff max b : forall buf size term rest,
+Lemma read_data_stuff max b term rest :
   is_term term = true ->
-  size + len (concat b) <= max ->
-  read_data_lines max buf size (stuff b ++ term :: rest) = (DOk (buf ++ concat b), rest).
+  len (concat b) <= max ->
+  read_data_lines max d0 (stuff b ++ term :: rest) = (DOk (concat b), rest).
 Proof.
-  induction b as [|l b IH]; intros buf size term rest T H.
-  - cbn. rewrite (data_line_term _ _ _ _ T). now rewrite app_nil_r.
-  - cbn [stuff map app read_data_lines concat] in *. rewrite len_app in H.
-    pose proof (len_nonneg (concat b)).
-    rewrite data_line_stuff by lia.
-    fold (stuff b). rewrite IH; auto; [|lia]. now rewrite app_assoc.
+  intros T H. rewrite read_data_body, absorb_small by (cbn; auto).
+  cbn [read_data_lines]. rewrite (data_line_term _ _ _ T). reflexivity.
 Qed.
 
-(** the size limit: a body larger than the limit is refused ... *)
-Lemma read_data_oversize max b : forall buf size term rest,
-  size <= max ->
-  size + len (concat b) > max ->
-  fst (read_data_lines max buf size (stuff b ++ term :: rest)) = DErrSize.
+(** the size limit: a body larger than the limit is refused, and it is read
+    to its end all the same: exactly what follows the terminator is left *)
+Lemma read_data_oversize max b term rest :
+  is_term term = true ->
+  0 <= max -> len (concat b) > max ->
+  read_data_lines max d0 (stuff b ++ term :: rest) = (DErrSize, rest).
 Proof.
-  induction b as [|l b IH]; intros buf size term rest Hs H.
-  - cbn in H. lia.
-  - cbn [stuff map app read_data_lines concat] in *. rewrite len_app in H.
-    destruct (Z_le_gt_dec (size + len l) max) as [Hle|Hgt].
-    + rewrite data_line_stuff by lia. fold (stuff b). apply IH; lia.
-    + rewrite data_line_stuff_big by lia. reflexivity.
+  intros T M H. rewrite read_data_body. cbn [read_data_lines].
+  rewrite (data_line_term _ _ _ T). unfold data_end.
+  rewrite absorb_large by (cbn; auto). reflexivity.
 Qed.
 
 (** ... and whatever is returned is within the limit, for every stream *)
-Lemma read_data_within max ls : forall buf size d rest,
-  size = len buf -> size <= max ->
-  read_data_lines max buf size ls = (DOk d, rest) -> len d <= max.
+Lemma read_data_within max ls : forall d data rest,
+  (d_big d = false -> d_size d = len (d_buf d) /\ d_size d <= max) ->
+  read_data_lines max d ls = (DOk data, rest) -> len data <= max.
 Proof.
-  induction ls as [|l ls IH]; intros buf size d rest E Hs R; cbn in R; [discriminate|].
+  induction ls as [|l ls IH]; intros d data rest I R; cbn in R; [discriminate|].
   unfold data_line in R.
   destruct (str_eqb l dot_crlf || str_eqb l dot_lf).
-  - injection R as <- _. lia.
-  - set (l' := if has_prefix l (S_ "..") then tl l else l) in *.
-    destruct (Z.gtb_spec (size + len l') max); [discriminate|].
-    eapply IH; [| |exact R]; [rewrite len_app; lia | lia].
+  - unfold data_end in R. destruct (d_big d); [discriminate|]. injection R as <- _.
+    destruct (I eq_refl). lia.
+  - destruct (d_big d) eqn:B.
+    + eapply IH; [|exact R]. intros X. congruence.
+    + destruct (I eq_refl) as [E Hs].
+      set (l' := if has_prefix l (S_ "..") then tl l else l) in *.
+      destruct (Z.gtb_spec (d_size d + len l') max).
+      * eapply IH; [|exact R]. cbn. discriminate.
+      * eapply IH; [|exact R]. cbn. intros _. rewrite len_app. lia.
 Qed.
 
 (** ---- byte level ---- *)
@@ -169,12 +229,12 @@ Qed.
 
 (** transparency, byte level: the bytes after the terminator are exactly what
     is left in the reader *)
-Lemma read_data_cmd_stuff max b term rest :
+Lemma split_stuffed b term rest :
   Forall is_line b -> is_term term = true ->
-  len (concat b) <= max ->
-  read_data_cmd (concat (stuff b) ++ term ++ rest) max = (DOk (concat b), rest).
+  split_lines (concat (stuff b) ++ term ++ rest) =
+  (let '(lr, tr) := split_lines rest in (stuff b ++ term :: lr, tr)).
 Proof.
-  intros F T H. unfold read_data_cmd.
+  intros F T.
   assert (FS : Forall is_line (stuff b ++ [term])).
   { apply Forall_app. split.
     - unfold stuff. apply Forall_forall. intros x Hx. apply in_map_iff in Hx as [y [<- Hy]].
@@ -183,7 +243,26 @@ Proof.
   replace (concat (stuff b) ++ term ++ rest) with (concat (stuff b ++ [term]) ++ rest)
     by (rewrite concat_app; cbn; now rewrite app_nil_r, app_assoc).
   rewrite split_lines_lines by exact FS.
+  destruct (split_lines rest) as [lr tr]. now rewrite <- app_assoc.
+Qed.
+
+Lemma read_data_cmd_stuff max b term rest :
+  Forall is_line b -> is_term term = true ->
+  len (concat b) <= max ->
+  read_data_cmd (concat (stuff b) ++ term ++ rest) max = (DOk (concat b), rest).
+Proof.
+  intros F T H. unfold read_data_cmd. rewrite split_stuffed by assumption.
   pose proof (split_lines_sound rest) as S. destruct (split_lines rest) as [lr tr].
-  rewrite <- app_assoc. cbn [app].
-  rewrite read_data_stuff by (auto; lia). cbn. now rewrite S.
+  rewrite read_data_stuff by auto. now rewrite S.
+Qed.
+
+(** over the limit: refused, and still exactly [rest] is left in the reader *)
+Lemma read_data_cmd_oversize max b term rest :
+  Forall is_line b -> is_term term = true ->
+  0 <= max -> len (concat b) > max ->
+  read_data_cmd (concat (stuff b) ++ term ++ rest) max = (DErrSize, rest).
+Proof.
+  intros F T M H. unfold read_data_cmd. rewrite split_stuffed by assumption.
+  pose proof (split_lines_sound rest) as S. destruct (split_lines rest) as [lr tr].
+  rewrite read_data_oversize by auto. now rewrite S.
 Qed.
